@@ -540,7 +540,7 @@ Proof. repeat split; vm_compute; reflexivity. Qed.
 
 (* VCR: a charset Python does not know is harmless now *)
 Definition no_raising_codec (h : list cevent) : bool :=
-  forallb (fun e => match e with CScenario ints => forallb (fun i => match i_codec i with CodecRaises => false | _ => true end) ints | COther => true end) h.
+  forallb (fun e => match e with CScenario ints => forallb (fun i => match i_codec i with CodecRaises | CodecBadName => false | _ => true end) ints | COther => true end) h.
 Lemma vcr_no_raising_codec san pres h : no_raising_codec h = true ->
   no_entry_raises {| w_fmt := VCR; w_sanitize := san; w_preserve := pres |} h = true.
 Proof.
@@ -1505,9 +1505,11 @@ Proof.
 Qed.
 
 (* ---- JUnit over full events ---- *)
-Lemma bad_ids_nil e : forallb (fun i => negb (text_raises i)) (sf_inters e) = true -> bad_ids e = [].
+(* every lemma is about an arbitrary except clause c (catch_rule); the code as it is and the handler before
+   22e8a9e1 are two instances *)
+Lemma bad_ids_nil c e : forallb (fun i => negb (text_raises_gen c i)) (sf_inters e) = true -> bad_ids_gen c e = [].
 Proof.
-  unfold bad_ids. induction (sf_inters e) as [|i l IH]; [reflexivity|].
+  unfold bad_ids_gen. induction (sf_inters e) as [|i l IH]; [reflexivity|].
   cbn [forallb filter]. intros H. apply andb_true_iff in H; destruct H as [Hi Hl]. apply negb_true_iff in Hi.
   rewrite Hi. apply IH, Hl.
 Qed.
@@ -1515,41 +1517,88 @@ Qed.
 Lemma find_mem_nil (g : groups) : find (fun cg => mem (fst cg) []) g = None.
 Proof. induction g as [|cg g IH]; [reflexivity|]. cbn [find mem]. exact IH. Qed.
 
-Definition event_decodable (e : fevent) : bool :=
-  match e with FScenario e => forallb (fun i => negb (text_raises i)) (sf_inters e) | _ => true end.
+Definition event_decodable (c : catch_rule) (e : fevent) : bool :=
+  match e with FScenario e => forallb (fun i => negb (text_raises_gen c i)) (sf_inters e) | _ => true end.
 
-Lemma junit_step_ev_decodable s t w e : event_decodable e = true ->
-  junit_step_ev forward_all s t w [] e = lift_ev [] (junit_step false s t w (jevent_of e)).
+Lemma junit_step_ev_decodable c s t w e : event_decodable c e = true ->
+  junit_step_ev_c c forward_all s t w [] e = lift_ev [] (junit_step false s t w (jevent_of e)).
 Proof.
   intros H. destruct e as [e| | |]; try reflexivity.
-  cbn [event_decodable] in H. cbn [junit_step_ev forward_all]. rewrite (bad_ids_nil e H). cbn [app].
+  cbn [event_decodable] in H. cbn [junit_step_ev_c forward_all]. rewrite (bad_ids_nil c e H). cbn [app].
   destruct (sf_status e); try reflexivity. rewrite find_mem_nil. reflexivity.
 Qed.
 
-Lemma junit_from_ev_decodable h : texts_decodable h = true -> forall s t w,
-  junit_from_ev forward_all s t w [] h = lift_ev [] (junit_from false s t w (map jevent_of h)).
+Lemma junit_from_ev_decodable c h : texts_decodable_c c h = true -> forall s t w,
+  junit_from_ev_c c forward_all s t w [] h = lift_ev [] (junit_from false s t w (map jevent_of h)).
 Proof.
-  unfold texts_decodable. induction h as [|e h IH]; intros H s t w; [reflexivity|].
+  unfold texts_decodable_c. induction h as [|e h IH]; intros H s t w; [reflexivity|].
   cbn [forallb] in H. apply andb_true_iff in H; destruct H as [He Hh].
-  cbn [junit_from_ev junit_from map]. rewrite (junit_step_ev_decodable s t w e He).
+  cbn [junit_from_ev_c junit_from map]. rewrite (junit_step_ev_decodable c s t w e He).
   destruct (junit_step false s t w (jevent_of e)); cbn [lift_ev]; [reflexivity | apply IH, Hh].
 Qed.
 
-Lemma junit_run_ev_decodable h : texts_decodable h = true -> junit_run_ev h = lift_ev [] (junit_run (map jevent_of h)).
+Lemma junit_run_ev_c_decodable c h : texts_decodable_c c h = true ->
+  junit_run_ev_c c forward_all h = lift_ev [] (junit_run (map jevent_of h)).
 Proof. intros H. apply junit_from_ev_decodable, H. Qed.
 
-(* region: no response text that raises on decode - then no event attribute makes the handler abort the run *)
-Lemma junit_ev_never_crashes h : texts_decodable h = true -> exists s t w, junit_run_ev h = RunningEv s t w [].
+(* for EVERY except clause: inside its region no event attribute makes the handler abort the run *)
+Lemma junit_ev_never_crashes_c c h : texts_decodable_c c h = true ->
+  exists s t w, junit_run_ev_c c forward_all h = RunningEv s t w [].
 Proof.
-  intros H. rewrite (junit_run_ev_decodable h H). destruct (junit_never_crashes (map jevent_of h)) as (s & t & w & ->).
+  intros H. rewrite (junit_run_ev_c_decodable c h H). destruct (junit_never_crashes (map jevent_of h)) as (s & t & w & ->).
   exists s, t, w. reflexivity.
 Qed.
 
+(* the code as it is: region = no response whose charset NAME Python refuses (NUL character) *)
+Lemma junit_ev_never_crashes h : texts_decodable h = true -> exists s t w, junit_run_ev h = RunningEv s t w [].
+Proof. apply junit_ev_never_crashes_c. Qed.
+
+(* the handler before 22e8a9e1: region = every charset decodable *)
+Lemma junit_ev_old_never_crashes h : texts_decodable_old h = true -> exists s t w, junit_run_ev_old h = RunningEv s t w [].
+Proof. apply junit_ev_never_crashes_c. Qed.
+
+(* an except clause that lets nothing through has the whole space as its region *)
+Lemma texts_decodable_catch_all c h : (forall x, c x = true) -> texts_decodable_c c h = true.
+Proof.
+  intros Hc. unfold texts_decodable_c. apply forallb_forall. intros e _. destruct e as [e| | |]; try reflexivity.
+  apply forallb_forall. intros i _. unfold text_raises_gen. destruct (text_exn_of i) as [x|]; [rewrite Hc|]; reflexivity.
+Qed.
+
+Lemma junit_ev_catch_all_never_crashes c h : (forall x, c x = true) ->
+  exists s t w, junit_run_ev_c c forward_all h = RunningEv s t w [].
+Proof. intros Hc. apply junit_ev_never_crashes_c, texts_decodable_catch_all, Hc. Qed.
+
+(* what the region of the code as it is says, read on one interaction *)
+Lemma text_raises_meaning i : text_raises i = true <-> (i_response i = true /\ i_codec i = CodecBadName).
+Proof.
+  unfold text_raises, text_raises_gen, text_exn_of. destruct (i_response i); destruct (i_codec i); cbn; intuition congruence.
+Qed.
+
+Lemma text_raises_old_meaning i : text_raises_gen catches_decode_error_only i = true <-> (i_response i = true /\ i_codec i <> CodecOk).
+Proof.
+  unfold text_raises_gen, text_exn_of. destruct (i_response i); destruct (i_codec i); cbn; intuition congruence.
+Qed.
+
+(* the repair only enlarged the region *)
+Lemma text_raises_now_old i : text_raises i = true -> text_raises_gen catches_decode_error_only i = true.
+Proof.
+  intros H. apply text_raises_meaning in H. destruct H as [Hr Hc]. apply text_raises_old_meaning. split; [exact Hr|].
+  rewrite Hc. discriminate.
+Qed.
+
+Lemma texts_decodable_old_now h : texts_decodable_old h = true -> texts_decodable h = true.
+Proof.
+  unfold texts_decodable_old, texts_decodable, texts_decodable_c. intros H. rewrite forallb_forall in *. intros e He.
+  specialize (H e He). destruct e as [e| | |]; try reflexivity. rewrite forallb_forall in *. intros i Hi. specialize (H i Hi).
+  apply negb_true_iff in H. apply negb_true_iff. change (text_raises i = false). destruct (text_raises i) eqn:E; [|reflexivity].
+  apply text_raises_now_old in E. congruence.
+Qed.
+
 (* whenever the run is not aborted, the handler state is the state of the dictionary-level machine *)
-Lemma junit_step_ev_running s t w bad e s1 t1 w1 bad1 : junit_step_ev forward_all s t w bad e = RunningEv s1 t1 w1 bad1 ->
+Lemma junit_step_ev_running c s t w bad e s1 t1 w1 bad1 : junit_step_ev_c c forward_all s t w bad e = RunningEv s1 t1 w1 bad1 ->
   junit_step false s t w (jevent_of e) = Running s1 t1 w1.
 Proof.
-  destruct e as [e| | |]; cbn [junit_step_ev forward_all].
+  destruct e as [e| | |]; cbn [junit_step_ev_c forward_all].
   - destruct (sf_status e) eqn:Est.
     2: destruct (find _ _); [discriminate|].
     all: destruct (junit_step false s t w (jevent_of (FScenario e))); cbn [lift_ev]; intros H; [discriminate | injection H as <- <- <- _; reflexivity].
@@ -1558,13 +1607,13 @@ Proof.
   - destruct (junit_step false s t w (jevent_of FOther)); cbn [lift_ev]; intros H; [discriminate | injection H as <- <- <- _; reflexivity].
 Qed.
 
-Lemma junit_from_ev_running h : forall s t w bad s1 t1 w1 bad1, junit_from_ev forward_all s t w bad h = RunningEv s1 t1 w1 bad1 ->
+Lemma junit_from_ev_running c h : forall s t w bad s1 t1 w1 bad1, junit_from_ev_c c forward_all s t w bad h = RunningEv s1 t1 w1 bad1 ->
   junit_from false s t w (map jevent_of h) = Running s1 t1 w1.
 Proof.
   induction h as [|e h IH]; intros s t w bad s1 t1 w1 bad1 H.
   - cbn in H. injection H as <- <- <- _. reflexivity.
-  - cbn [junit_from_ev] in H. destruct (junit_step_ev forward_all s t w bad e) as [a|s' t' w' bad'] eqn:Es; [discriminate|].
-    cbn [map junit_from]. rewrite (junit_step_ev_running _ _ _ _ _ _ _ _ _ Es). apply (IH _ _ _ _ _ _ _ _ H).
+  - cbn [junit_from_ev_c] in H. destruct (junit_step_ev_c c forward_all s t w bad e) as [a|s' t' w' bad'] eqn:Es; [discriminate|].
+    cbn [map junit_from]. rewrite (junit_step_ev_running _ _ _ _ _ _ _ _ _ _ Es). apply (IH _ _ _ _ _ _ _ _ H).
 Qed.
 
 Lemma failure_labels_proj h : failure_labels (map jevent_of h) = failure_labels_ev h.
@@ -1583,38 +1632,81 @@ Proof.
     destruct (sf_status x); try exact IH. right. exact IH.
 Qed.
 
-(* every history, no region: when the run was not aborted, every FAILURE-status event - final or not, any phase, with
-   or without an event label - has left a failure element under the label of its recorder *)
-Lemma junit_ev_failure_reported h s t w bad e : junit_run_ev h = RunningEv s t w bad ->
+(* every history, every except clause, no region: when the run was not aborted, every FAILURE-status event - final or
+   not, any phase, with or without an event label - has left a failure element under the label of its recorder *)
+Lemma junit_ev_failure_reported_c c h s t w bad e : junit_run_ev_c c forward_all h = RunningEv s t w bad ->
   In (FScenario e) h -> sf_status e = StFailure -> has_failure (sf_rlabel e) t = true.
 Proof.
   intros Hr Hin Hst. apply junit_from_ev_running in Hr.
   apply (junit_failure_reported _ _ _ _ _ Hr). rewrite failure_labels_proj. apply in_failure_labels_ev; assumption.
 Qed.
 
-(* refuted outside the region: a failed check on a response whose charset Python does not know (or whose codec
-   raises): rendering the failure for junit.xml raises LookupError / UnicodeError, the run is aborted.  The abort
-   can come later than the response: the group stays under its label and is rendered again by every later FAILURE
-   event of that label *)
+Lemma junit_ev_failure_reported h s t w bad e : junit_run_ev h = RunningEv s t w bad ->
+  In (FScenario e) h -> sf_status e = StFailure -> has_failure (sf_rlabel e) t = true.
+Proof. apply junit_ev_failure_reported_c. Qed.
+
+(* both halves in one statement: inside the region the run goes on AND every FAILURE event is in the report *)
+Lemma junit_ev_runs_and_reports h : texts_decodable h = true ->
+  exists s t w, junit_run_ev h = RunningEv s t w []
+    /\ forall e, In (FScenario e) h -> sf_status e = StFailure -> has_failure (sf_rlabel e) t = true.
+Proof.
+  intros H. destruct (junit_ev_never_crashes h H) as (s & t & w & Hr). exists s, t, w. split; [exact Hr|].
+  intros e Hin Hst. exact (junit_ev_failure_reported h s t w [] e Hr Hin Hst).
+Qed.
+
+(* ---- witnesses ---- *)
 Definition ev_unit (l : label) (st : status) (cases : list case_rec) (ints : list inter) : sf_event :=
   {| sf_phase := PhFuzzing; sf_label := Some l; sf_status := st; sf_skip_reason := false; sf_is_final := false;
      sf_rlabel := l; sf_cases := cases; sf_inters := ints |}.
+(* charset=bogus / charset=undefined: the witnesses of finding C16-F11, repaired by 22e8a9e1 *)
 Definition h_bogus_failure : list fevent :=
   [FScenario (ev_unit 1 StFailure [{| c_id := 1; c_checks := [Some 7] |}] [i_bogus 1]); FEngineFinished].
 Definition h_bogus_then_failure : list fevent :=
   [FScenario (ev_unit 1 StSuccess [{| c_id := 1; c_checks := [Some 7] |}] [i_undefined 1]);
    FScenario (ev_unit 1 StFailure [{| c_id := 2; c_checks := [Some 8] |}] [i_plain 2]); FEngineFinished].
+(* a charset name with a NUL character: what is left (finding C16-F12) *)
+Definition i_nul (n : N) : inter := {| i_id := n; i_userinfo := false; i_response := true; i_codec := CodecBadName; i_cookie_values := [] |}.
+Definition h_nul_failure : list fevent :=
+  [FScenario (ev_unit 1 StFailure [{| c_id := 1; c_checks := [Some 7] |}] [i_nul 1]); FEngineFinished].
+Definition h_nul_then_failure : list fevent :=
+  [FScenario (ev_unit 1 StSuccess [{| c_id := 1; c_checks := [Some 7] |}] [i_nul 1]);
+   FScenario (ev_unit 1 StFailure [{| c_id := 2; c_checks := [Some 8] |}] [i_plain 2]); FEngineFinished].
+
+(* sentinel: the except clause before 22e8a9e1 aborted the run on an unknown charset (at once) and on a raising
+   codec (at the next FAILURE event of the label); both histories are inside the region of the code as it is, which
+   keeps running and writes the report with the failure element *)
+Lemma junit_old_catch_rule_aborts :
+  texts_decodable_old h_bogus_failure = false /\ texts_decodable h_bogus_failure = true
+  /\ texts_decodable_old h_bogus_then_failure = false /\ texts_decodable h_bogus_then_failure = true
+  /\ junit_run_ev_old h_bogus_failure = Aborted (AbortText 1)
+  /\ junit_run_ev_old h_bogus_then_failure = Aborted (AbortText 1)
+  /\ (exists s t w, junit_run_ev h_bogus_failure = RunningEv s t (Some w) [] /\ has_failure 1 w = true)
+  /\ (exists s t w, junit_run_ev h_bogus_then_failure = RunningEv s t (Some w) [] /\ has_failure 1 w = true).
+Proof.
+  repeat split; try (vm_compute; reflexivity).
+  - vm_compute. eexists _, _, _. split; reflexivity.
+  - vm_compute. eexists _, _, _. split; reflexivity.
+Qed.
+Lemma junit_old_catch_rule_refuted_ex : exists h a, texts_decodable h = true /\ junit_run_ev_old h = Aborted a.
+Proof. exists h_bogus_failure, (AbortText 1). split; apply junit_old_catch_rule_aborts. Qed.
+
+(* refuted outside the region: a failed check on a response whose charset name carries a NUL character: rendering the
+   failure for junit.xml raises ValueError, which (UnicodeError, LookupError) does not catch: the run is aborted.  The
+   abort can come later than the response: the group stays under its label and is rendered again by every later
+   FAILURE event of that label *)
 Lemma junit_ev_aborts_on_undecodable_text :
-  texts_decodable h_bogus_failure = false /\ junit_run_ev h_bogus_failure = Aborted (AbortText 1)
-  /\ junit_run_ev h_bogus_then_failure = Aborted (AbortText 1)
-  /\ (exists s t w, junit_run (map jevent_of h_bogus_failure) = Running s t w).
+  texts_decodable h_nul_failure = false /\ junit_run_ev h_nul_failure = Aborted (AbortText 1)
+  /\ junit_run_ev h_nul_then_failure = Aborted (AbortText 1)
+  /\ (exists s t w, junit_run (map jevent_of h_nul_failure) = Running s t w).
 Proof. repeat split; try (vm_compute; reflexivity). apply junit_never_crashes. Qed.
 Lemma junit_ev_never_crashes_refuted_ex : exists h a, junit_run_ev h = Aborted a.
-Proof. exists h_bogus_failure, (AbortText 1). apply junit_ev_aborts_on_undecodable_text. Qed.
+Proof. exists h_nul_failure, (AbortText 1). apply junit_ev_aborts_on_undecodable_text. Qed.
 Example junit_ev_region_nonvacuous :
   texts_decodable h_final_replay = true
-  /\ texts_decodable [FScenario (ev_unit 1 StFailure [{| c_id := 1; c_checks := [Some 7] |}] [i_plain 1]); FScenario (ev_stateful true StFailure [{| c_id := 2; c_checks := [Some 7] |}] [i_neterr 2])] = true.
-Proof. split; reflexivity. Qed.
+  /\ texts_decodable [FScenario (ev_unit 1 StFailure [{| c_id := 1; c_checks := [Some 7] |}] [i_plain 1]); FScenario (ev_stateful true StFailure [{| c_id := 2; c_checks := [Some 7] |}] [i_neterr 2])] = true
+  /\ texts_decodable [FScenario (ev_unit 1 StFailure [{| c_id := 1; c_checks := [Some 7] |}] [i_bogus 1; i_undefined 2]); FEngineFinished] = true
+  /\ texts_decodable_old h_final_replay = true.
+Proof. repeat split; reflexivity. Qed.
 
 (* sentinel: a JUnit handler that passed over final scenarios *)
 Definition h_final_failure : list fevent :=
